@@ -277,6 +277,17 @@ class Sandbox:
         os.remove = self._remove
         os.unlink = self._remove
         os.makedirs = self._makedirs
+        # aliases the package under test may have bound at import time
+        # (`_replace = os.replace`, `from os import remove`, ...)
+        from . import seams as _seams
+        self._alias_undo = []
+        for real, repl in ((_real_open, self._open),
+                           (_real_replace, self._replace),
+                           (_real_rename, self._rename),
+                           (_real_remove, self._remove),
+                           (_real_makedirs, self._makedirs)):
+            self._alias_undo.append(
+                (_seams.patch_everywhere(real, repl), real))
         self.installed = True
 
     def uninstall(self):
@@ -289,6 +300,10 @@ class Sandbox:
         os.remove = _real_remove
         os.unlink = _real_remove
         os.makedirs = _real_makedirs
+        from . import seams as _seams
+        for done, real in getattr(self, '_alias_undo', []):
+            _seams.unpatch(done, real)
+        self._alias_undo = []
         self.installed = False
 
     def destroy(self):
